@@ -213,7 +213,10 @@ def gen_cases(rng, n):
             dt = datetime.date(*map(int, d.split("-")))
             exp = {"year": dt.year, "month": dt.month, "day": dt.day, "dow": (dt.isoweekday() % 7) + 1}[f]
             name = {"dow": rng.choice(["dow", "dayofweek"])}.get(f, f)
-            add("%s(%s)" % (name, q(d)), ("text", str(exp)), f)
+            # the date may stand alone or inside other text (the documentation's own example is `year(name)`)
+            arg = rng.choice([q(d), q(d), q("report-%s.txt" % d), q("taken on %s" % d), q("%s_backup" % d), q("IMG %s 12" % d),
+                              "concat('snapshot-', %s)" % q(d), "lower(%s)" % q("Scan %s.PDF" % d)])
+            add("%s(%s)" % (name, arg), ("text", str(exp)), f)
         elif f == "compose":
             c = rng.choice(["upper_substr", "len_trim", "hex_len", "lower_concat", "b64_upper", "len_replace", "substr_lower",
                             "abs_least", "upper_upper", "len_b64", "initcap_lower", "concat_len", "neg_fn_twice", "neg_fn_twice", "same_call_twice"])
@@ -366,7 +369,22 @@ def run_job(job):
             ts = base + rng.choice([0, 86399, 59 * 86400, 59 * 86400 + 86399, 365 * 86400 + 86399, 366 * 86400, 424242])
             os.utime(p, (ts, ts))
             names.append(nm)
+        # names that carry a date (`year(name)` is the documentation's own example)
+        for d in rng.sample(DATES, 3):
+            nm = rng.choice(["report-%s.txt", "%s", "IMG_%s_001.jpg", "backup %s"]) % d
+            if nm not in names:
+                open(os.path.join(nd, nm), "w").close()
+                names.append(nm)
+
+        def name_date(n, part):
+            m = re.search(r"(\d{4})-(\d{1,2})-(\d{1,2})", n)
+            if not m:
+                return None         # no date in the name: the value is not judged here
+            dt = datetime.date(int(m.group(1)), int(m.group(2)), int(m.group(3)))
+            return str({"year": dt.year, "month": dt.month, "day": dt.day, "dow": dt.isoweekday() % 7 + 1}[part])
         colcases = [
+            ("year(name)", lambda n, st: name_date(n, "year")), ("month(name)", lambda n, st: name_date(n, "month")),
+            ("day(name)", lambda n, st: name_date(n, "day")), ("dow(name)", lambda n, st: name_date(n, "dow")),
             ("lower(name)", lambda n, st: n.lower()), ("length(name)", lambda n, st: str(len(n))),
             ("upper(name)", lambda n, st: n.upper() if "ß" not in n else None), ("hex(size)", lambda n, st: "%x" % st.st_size),
             ("bin(size)", lambda n, st: bin(st.st_size)[2:]), ("oct(size)", lambda n, st: "%o" % st.st_size),
